@@ -151,6 +151,9 @@ type Engine struct {
 	Epochs    []*EpochInfo
 	// serveTasks[i] calls Serve for epoch i
 	serveTasks []*sched.Task
+	// kept: the request last handled per resource name, kept past the
+	// return of its handler (guarded by H.mu)
+	kept map[string]res.Resource
 	cur        atomic.Int32 // current epoch index
 	Conn       *simconn.Conn
 
@@ -510,17 +513,43 @@ func (e *Engine) handle(pi int, kind, regMethod string, r res.Resource) {
 	}
 	e.H.Enter(group, s.Op.ID, hk)
 	e.noteStart(s, hk)
-	if rq, ok := r.(reqIface); ok {
+	if _, ok := r.(reqIface); ok {
+		e.H.mu.Lock()
+		if e.kept == nil {
+			e.kept = map[string]res.Resource{}
+		}
+		e.kept[r.ResourceName()] = r
+		e.H.mu.Unlock()
+	}
+	view := func() *ReqView {
+		rq, ok := r.(reqIface)
+		if !ok {
+			return nil
+		}
 		hdr, _ := json.Marshal(rq.Header())
-		s.View = &ReqView{Kind: kind, PatID: pi, RegMethod: regMethod, RName: r.ResourceName(), Method: rq.Method(),
-			Params: r.PathParams(), Query: r.Query(), CID: rq.CID(), Token: string(rq.RawToken()), RawParams: string(rq.RawParams()),
+		params := map[string]string{}
+		for k, v := range r.PathParams() {
+			params[k] = v
+		}
+		return &ReqView{Kind: kind, PatID: pi, RegMethod: regMethod, RName: r.ResourceName(), Method: rq.Method(),
+			Params: params, Query: r.Query(), CID: rq.CID(), Token: string(rq.RawToken()), RawParams: string(rq.RawParams()),
 			Header: string(hdr), Host: rq.Host(), RemoteAddr: rq.RemoteAddr(), URI: rq.URI(), IsHTTP: rq.IsHTTP(), Group: r.Group()}
 	}
+	s.View = view()
 	if group != "" {
 		p := e.scratchFor(group)
 		*p++
 	}
 	defer func() {
+		// what the handler sees must not change while it runs (other
+		// requests are decoded and routed meanwhile)
+		if first, last := s.View, view(); first != nil && last != nil {
+			a, _ := json.Marshal(first)
+			b, _ := json.Marshal(last)
+			if string(a) != string(b) {
+				e.H.Violate("C05", "request-data-changed", "", fmt.Sprintf("request %d %s: the handler saw %s when it started and %s when it ended", s.Op.ID, s.Op.Subject, a, b))
+			}
+		}
 		e.H.Exit(group, s.Op.ID, hk)
 	}()
 	e.runScript(s, s.Op.Script, r, kind)
@@ -907,8 +936,24 @@ func (e *Engine) doOp(a *ActorSpec, op *Op) {
 			s.Return = e.H.Rec("submit.return", s.Group, op.ID, s.Err)
 			return
 		}
+		// every other call passes a request that an earlier handler kept:
+		// a request stays valid as a Resource after its handler returned
+		rname := op.RID
+		if i := strings.IndexByte(rname, '?'); i >= 0 {
+			rname = rname[:i]
+		}
+		e.H.mu.Lock()
+		if k := e.kept[rname]; k != nil && op.ID%2 == 0 {
+			r = k
+		}
+		e.H.mu.Unlock()
 		s.Invoke = e.H.Rec("submit.invoke", s.Group, op.ID, "withres "+op.RID)
-		e.Svc.WithResource(r, func() { e.callback(s, "withres", r) })
+		e.Svc.WithResource(r, func() {
+			if got := r.ResourceName(); got != rname {
+				e.H.Violate("C05", "kept-resource-changed", "", fmt.Sprintf("a resource obtained for %s names %s when it is used in a later WithResource callback", rname, got))
+			}
+			e.callback(s, "withres", r)
+		})
 		e.Sim.Yield("call.return", "withres")
 		s.Return = e.H.Rec("submit.return", s.Group, op.ID, "")
 	case "withgroup":
